@@ -4,6 +4,7 @@ from __future__ import annotations
 import json
 import os
 import random
+import tempfile
 
 import model as M
 import tlc
@@ -179,8 +180,9 @@ def mutations(tokens, rng, limit=None):
 def _exec_files(args):
     items, seed = args
     import impl  # noqa: F401
-    from parser.Wrappers import parse_belief_base, parse_queries
+    from parser.Wrappers import parse_belief_base, parse_belief_base_from_str, parse_queries, parse_queries_from_str, parseCKB
 
+    os.makedirs(os.path.join(BUILD, "in"), exist_ok=True)
     rng = random.Random(seed)
     out = []
     for kind, toks in items:
@@ -188,7 +190,22 @@ def _exec_files(args):
         rec = {"kind": kind, "tokens": toks, "text": text, "ok": False, "sig": [], "conds": [], "note": None}
         try:
             # "fileq": a complete belief-base text handed to parse_queries (it then yields that base's conditionals)
-            obj = parse_belief_base(text) if kind == "file" else parse_queries(text)
+            # every public entry point must give the documented meaning: text or path, the *_from_str variants, parseCKB
+            via = rng.choice(["text", "text", "path", "from_str", "core"])
+            rec["via"] = via
+            arg = text
+            if via == "path":
+                fd, arg = tempfile.mkstemp(prefix="c10_", suffix=".cl" if kind == "file" else ".clq", dir=os.path.join(BUILD, "in"))
+                with os.fdopen(fd, "w", newline="") as fh:
+                    fh.write(text)
+            try:
+                if kind == "file":
+                    obj = {"text": parse_belief_base, "path": parse_belief_base, "from_str": parse_belief_base_from_str, "core": parseCKB}[via](arg)
+                else:
+                    obj = {"text": parse_queries, "path": parse_queries, "from_str": parse_queries_from_str, "core": parse_queries_from_str}[via](arg)
+            finally:
+                if via == "path":
+                    os.unlink(arg)
             conds = obj.conditionals
             rec["ok"] = True
             rec["sig"] = [("T" if s == "Top" else "F" if s == "Bottom" else s) for s in obj.signature] if kind in ("file", "fileq") else []
@@ -271,7 +288,7 @@ def run(chk: Check, tier: str):
         "formula level (path G): TLC classifies every token string of length <= " + ("6" if tier == "quick" else "7") + " over {a, b, Top, Bottom, !, ',', ';', (, )} "
         "(accept + truth table, or reject) with the recognizer-with-meaning of InfOCFSyntax.tla; each is rendered with seeded separators/comments and given to parse_formula, "
         "whose result is evaluated by substitution over all assignments. file level (path T): generated well-formed belief-base files and query lists (0-3 conditionals, formula depth <= 2, "
-        "blank lines, comments, CRLF) and their single-token mutations (delete/insert/replace at every position, trailing tokens) are parsed by parse_belief_base / parse_queries and the "
+        "blank lines, comments, CRLF) and their single-token mutations (delete/insert/replace at every position, trailing tokens) are parsed through a seeded public entry point (parse_belief_base / parse_queries with the text or with the path of a file holding it, parse_belief_base_from_str, parse_queries_from_str, parseCKB) and the "
         "recorded outcome (rejected, or signature + key order + truth tables of consequent/antecedent + re-parse of the text representation) is validated by TLC (Trace_Syntax). "
         "Non-trivial = inputs the specification accepts (their meaning is compared), distinct by token string."
     )
